@@ -142,21 +142,22 @@ func boolInt(b bool) int {
 // real time
 
 type rtEvent struct {
-	Op     string `json:"op"`
-	ID     int    `json:"id"`
-	T      int64  `json:"t"`     // microseconds
-	MTime  int64  `json:"mtime"` // microseconds: the time stamp written
-	Kind   string `json:"kind"`  // poll kind
-	Start  int64  `json:"start"`
-	End    int64  `json:"end"`
-	Judged bool   `json:"judged"` // the poll judged the lock stale (IsStale true / ErrStaleLock / released / taken over)
-	Result string `json:"result"`
-	CtlGap int64  `json:"ctlGap"` // largest gap between control heartbeats overlapping the poll's look-back window
-	LibGap int64  `json:"libGap"`
-	Period int64  `json:"period"`
-	Load   int    `json:"load"`
-	Held   bool   `json:"held"`
-	Note   string `json:"note,omitempty"`
+	Op       string `json:"op"`
+	ID       int    `json:"id"`
+	T        int64  `json:"t"`     // microseconds
+	MTime    int64  `json:"mtime"` // microseconds: the time stamp written
+	Kind     string `json:"kind"`  // poll kind
+	Start    int64  `json:"start"`
+	End      int64  `json:"end"`
+	Judged   bool   `json:"judged"` // the poll judged the lock stale (IsStale true / ErrStaleLock / released / taken over)
+	Result   string `json:"result"`
+	CtlGap   int64  `json:"ctlGap"` // largest gap between control heartbeats overlapping the poll's look-back window
+	LibGap   int64  `json:"libGap"`
+	LastSign int64  `json:"lastSign"` // completion instant of the holder\'s newest sign of life that completed before the poll ended
+	Period   int64  `json:"period"`
+	Load     int    `json:"load"`
+	Held     bool   `json:"held"`
+	Note     string `json:"note,omitempty"`
 }
 
 func us(d time.Duration) int64 { return int64(d / time.Microsecond) }
@@ -427,6 +428,11 @@ func oneRealtimeRound(id int, scratch string, holdPeriods, load, observers int, 
 		if evs[i].Op == "Poll" {
 			evs[i].CtlGap = gapOver(ctl, evs[i].Start-3*us(period), evs[i].End)
 			evs[i].LibGap = gapOver(lib, evs[i].Start-3*us(period), evs[i].End)
+			for _, t := range lib {
+				if t <= evs[i].End && t > evs[i].LastSign {
+					evs[i].LastSign = t
+				}
+			}
 		}
 	}
 	return evs, nil
